@@ -294,9 +294,10 @@ Definition float_conv (text : bytes) : outcome (bool * Z * Z) :=
 (* ---------- correspondence ---------- *)
 Inductive case :=
 | CInt (tok : bytes) (obs : outcome Z)          (* the token reached parse_integer_literal *)
-| CCount (tok : bytes) (obs : outcome N)        (* SKIP / LIMIT *)
+| CCount (tok : bytes) (obs : outcome (option N))  (* SKIP / LIMIT; Ok None = accepted, count dropped *)
 | CLen (f : lp_form) (obs : outcome (option N * option N))
-| CFloat (tok : bytes) (accepted : bool) (panicked : bool).
+| CFloat (tok : bytes) (accepted : bool) (panicked : bool)
+| CNoPanic (input : bytes) (panicked : bool).   (* whole parser, not modelled: the claim is "no panic" *)
 
 Definition outcome_eqb {A} (eqb : A -> A -> bool) (a b : outcome A) : bool :=
   match a, b with
@@ -316,7 +317,8 @@ Definition optN_eqb (a b : option N) : bool :=
 Definition check_case (c : case) : bool :=
   match c with
   | CInt t o => outcome_eqb Z.eqb (parse_integer_literal t) o
-  | CCount t o => outcome_eqb N.eqb (skip_limit t) o
+  | CCount t o => outcome_eqb optN_eqb
+                    (match skip_limit t with Ok n => Ok (Some n) | Err => Err | Panic => Panic end) o
   | CLen f o => outcome_eqb (fun a b => optN_eqb (fst a) (fst b) && optN_eqb (snd a) (snd b)) (length_pattern f) o
   | CFloat t acc pan =>
       match float_conv t with
@@ -324,4 +326,5 @@ Definition check_case (c : case) : bool :=
       | Err => negb acc && negb pan
       | Panic => pan
       end
+  | CNoPanic _ pan => negb pan
   end.
